@@ -266,6 +266,55 @@ def cli_runs(cx, tier, seed):
     return tr
 
 
+CFG_NAMES = ["output_format", "loop_order", "tanb_resummation", "force_output", "verbose_output", "calculate_uncertainty",
+             "running_couplings"]
+CFG_DEFAULT = {"output_format": None, "loop_order": 2, "tanb_resummation": 1, "force_output": 0, "verbose_output": 0,
+               "calculate_uncertainty": 0, "running_couplings": 1}
+
+
+def config_tests(cx, tier, seed):
+    """every GM2CalcConfig entry with every value at and around its documented range, in several spellings"""
+    rnd = random.Random(seed + 29)
+    exe = build.driver_build("d_slha")
+    fdir = cx.path("cfgfiles")
+    os.makedirs(fdir)
+    jobs, meta = [], []
+    for k in range(7):
+        hi = {0: 4, 1: 2}.get(k, 1)
+        vals = [(2 * v, "num", [str(v), "%d.0" % v, "%de0" % v, "+%d" % v] if v >= 0 else [str(v), "%d.0" % v]) for v in range(-2, hi + 4)]
+        vals += [(2 * v + 1, "num", ["%d.5" % v]) for v in range(0, hi + 2)]
+        vals += [(18, "num", ["9"]), (2000, "num", ["1e3", "1000"]), (0, "nan", ["abc", "nan", "inf", "1e400", "1x", "0x"])]
+        for n2, tok, spell in vals:
+            for sp in (spell if tier == "thorough" else [spell[0], rnd.choice(spell)]):
+                jid = "cfg%d_%d" % (k, len(jobs))
+                p = os.path.join(fdir, jid + ".in")
+                open(p, "w").write("Block %s\n   %d   %s\n" % (rnd.choice(["GM2CalcConfig", "gm2calcconfig", "GM2CALCCONFIG"]), k, sp))
+                jobs.append("%s config %s" % (jid, p))
+                meta.append((jid, k, tok, n2, sp))
+    jf = cx.path("cfgjobs.txt")
+    open(jf, "w").write("\n".join(jobs) + "\n")
+    raw = cx.path("cfgfilled.ndjson")
+    core.run_driver(exe, [jf, raw])
+    got = {}
+    for ln in open(raw):
+        ev = json.loads(ln)
+        got[ev["id"]] = ev
+    tr = cx.path("trace_cfg.ndjson")
+    with open(tr, "w") as fh:
+        for jid, k, tok, n2, sp in meta:
+            ev = got[jid]
+            obs = {n: core.dy(v) for n, v in ev["obs"].items()}
+            name = CFG_NAMES[k]
+            others = all(CFG_DEFAULT[n] is None or obs[n] == CFG_DEFAULT[n] for n in CFG_NAMES if n != name)
+            st = obs[name]
+            fh.write(json.dumps({"e": "Config", "k": k, "tok": tok, "n2": n2, "exc": ev["exc"],
+                                 "stored": int(st) if st == int(st) and abs(st) < 1e6 else -999, "others": others,
+                                 "sig": "config/%d/%s" % (k, sp)}) + "\n")
+            cx.evaluations += 1
+            cx.distinct.add(("config", k, sp))
+    return tr
+
+
 def run(tier, seed):
     cx = core.Ctx("C13", tier, seed, "model_checking")
     model_runs(cx, tier)
@@ -273,7 +322,8 @@ def run(tier, seed):
     t1 = in_process(cx, tier, seed, cases)
     t2 = key_tests(cx, tier, seed)
     t3 = cli_runs(cx, tier, seed)
-    shards = tlc.split_trace(t1, 14, group_key="case") + [t2, t3]
+    t4 = config_tests(cx, tier, seed)
+    shards = tlc.split_trace(t1, 14, group_key="case") + [t2, t3, t4]
     for rep in tlc.validate_traces("Trace_C13.tla", shards, jobs=16, heap="3g"):
         cx.add_report(rep)
         cx.cov["invariant_evaluations"] = cx.cov.get("invariant_evaluations", 0) + rep["extra"]["nchecked"]
